@@ -174,6 +174,8 @@ def gen_link(rng, blocks, opts):
         key = (str(orders[p]), a["name"])
         if key not in latoms:
             attrs = {} if use_global else {"resname": "|".join(rsets[p])}
+            if not use_global and latoms and rng.random() < opts.get("p_partial_resname", 0.0):
+                attrs = {}          # an atom of the link that says nothing about its residue name (never the first one)
             if rng.random() < opts.get("p_attr", 0.15):
                 attrs["atype"] = rng.choice(ATYPES[:3]) if rng.random() < 0.5 else a["atype"]
             latoms[key] = {"order": orders[p], "name": a["name"], "attrs": attrs, "replace": None, "remove": False}
